@@ -377,22 +377,18 @@ Proof.
     specialize (IH _ Hs). destruct (aggr_loop cw f res bs (skipn j (k :: r))); [discriminate|congruence].
 Qed.
 
-Lemma aggr_terminates res nc ins :
-  (1 <= length ins / nc)%nat -> exists out, downsample_aggr_m res nc ins = Some out.
+Lemma aggr_terminates res nc ins : exists out, downsample_aggr_m res nc ins = Some out.
 Proof.
-  intros H. unfold downsample_aggr_m, downsample_aggr.
-  pose proof (aggr_loop_total res _ H (length ins) ins (le_n _)) as T.
-  destruct (aggr_loop cw (length ins) res (length ins / nc) ins) as [out|]; [eexists; reflexivity|congruence].
+  unfold downsample_aggr_m, downsample_aggr.
+  pose proof (aggr_loop_total res _ (Nat.le_max_r (length ins / nc) 1) (length ins) ins (le_n _)) as T.
+  destruct (aggr_loop cw (length ins) res (Nat.max (length ins / nc) 1) ins) as [out|]; [eexists; reflexivity|congruence].
 Qed.
 
 Lemma pred_total res nc ins :
   valid_input res nc ins = true ->
   exists out, downsample_aggr_m res nc ins = Some out /\ pred_ok (CAggr res nc ins out) = true.
 Proof.
-  intros V. assert (H : (1 <= length ins / nc)%nat).
-  { unfold valid_input in V. do 4 (apply andb_true_iff in V as [V _]).
-    apply andb_true_iff in V as [_ V]. apply Nat.leb_le. exact V. }
-  destruct (aggr_terminates res nc ins H) as [out E]. exists out. split; [exact E|apply pred_holds; exact E].
+  intros V. destruct (aggr_terminates res nc ins) as [out E]. exists out. split; [exact E|apply pred_holds; exact E].
 Qed.
 
 (* ---- tie T for the batch sizes: the formulas written in the model are the ones in the
@@ -408,9 +404,60 @@ Proof.
 Qed.
 
 Lemma aggr_batch_size_model len nc :
-  Z.to_nat (aggr_batch_size (Z.of_nat len) (Z.of_nat nc)) = (len / nc)%nat.
+  Z.to_nat (aggr_batch_size (Z.of_nat len) (Z.of_nat nc)) = Nat.max (len / nc) 1.
 Proof.
   unfold aggr_batch_size. cbv zeta beta. destruct nc as [|nc'].
   - change (Z.of_nat 0) with 0. destruct (Z.of_nat len); reflexivity.
-  - rewrite Z.quot_div_nonneg by lia. rewrite <- Nat2Z.inj_div. apply Nat2Z.id.
+  - rewrite Z.quot_div_nonneg by lia. rewrite <- Nat2Z.inj_div.
+    change (Z.max (Z.of_nat (len / S nc')) 1) with (Z.max (Z.of_nat (len / S nc')) (Z.of_nat 1)).
+    rewrite <- Nat2Z.inj_max. apply Nat2Z.id.
+Qed.
+
+(* ---- the clamp is a no-op on the property's domain ---- *)
+
+(* the integer loop of targetChunkCount: `for x = 1; expSamples/x > 140; x++ {}` ends at the
+   least x >= 1 with expSamples/x <= 140, which is expSamples/141 + 1 *)
+Lemma target_loop_closed_form e : 0 <= e ->
+  let x := e / 141 + 1 in
+  Z.quot e x <= 140 /\ forall y, 1 <= y < x -> 140 < Z.quot e y.
+Proof.
+  intros He x. subst x. split.
+  - rewrite Z.quot_div_nonneg by (pose proof (Z.div_pos e 141 He ltac:(lia)); lia).
+    assert (H : e / (e / 141 + 1) < 141); [|lia].
+    apply Z.div_lt_upper_bound; [pose proof (Z.div_pos e 141 He ltac:(lia)); lia|].
+    pose proof (Z.mod_pos_bound e 141 ltac:(lia)). pose proof (Z.div_mod e 141 ltac:(lia)). nia.
+  - intros y Hy. rewrite Z.quot_div_nonneg by lia.
+    assert (H : 141 <= e / y); [|lia].
+    apply Z.div_le_lower_bound; [lia|]. pose proof (Z.mul_div_le e 141 ltac:(lia)). nia.
+Qed.
+
+Lemma series_count_length : forall ins : list achunk,
+  forallb (fun k => Nat.leb (length (olist (k_count k))) 706) ins = true ->
+  (length (series k_count ins) <= 706 * length ins)%nat.
+Proof.
+  induction ins as [|k r IH]; intros H; [cbn; lia|].
+  cbn [forallb] in H. apply andb_true_iff in H as [Hk H]. apply Nat.leb_le in Hk.
+  rewrite series_cons, app_length. cbn [length]. specialize (IH H). lia.
+Qed.
+
+(* 5m chunks written by DownsampleRaw (<= 706 rows each) re-downsampled to 1h with a target
+   chunk count bounded as the heuristic guarantees: never more target chunks than chunks, so
+   max(len/numChunks, 1) = len/numChunks *)
+Lemma clamp_noop nc (ins : list achunk) :
+  ins <> [] -> (1 <= nc)%nat -> domain_ok nc ins = true ->
+  (nc <= length ins)%nat /\ Nat.max (length ins / nc) 1 = (length ins / nc)%nat.
+Proof.
+  intros Hne Hnc H. unfold domain_ok in H. apply andb_true_iff in H as [Hrows Hn].
+  apply Z.leb_le in Hn. pose proof (series_count_length ins Hrows) as Hc.
+  assert (HL : (1 <= length ins)%nat) by (destruct ins; [congruence|cbn; lia]).
+  assert (Hle : (nc <= length ins)%nat).
+  { set (c := Z.of_nat (length (series k_count ins))) in *. set (L := Z.of_nat (length ins)).
+    assert (Hc' : c <= 706 * L) by (unfold c, L; lia).
+    assert (0 <= c) by (unfold c; lia). assert (1 <= L) by (unfold L; lia).
+    assert (c / 12 <= 59 * L) by (apply Z.div_le_upper_bound; lia).
+    assert ((c / 12 + 2) / 141 + 1 <= L).
+    { assert ((c / 12 + 2) / 141 < L); [|lia]. apply Z.div_lt_upper_bound; lia. }
+    unfold L in *. lia. }
+  split; [exact Hle|]. apply Nat.max_l.
+  apply Nat.div_le_lower_bound; lia.
 Qed.
